@@ -55,6 +55,17 @@ def check_text(text, intended=None, cols=None, deep=False):
     del it
     if list(fresh) != inotes:
         fail("iterating again after an abandoned first iteration yields different notes", "same notes", "different")
+    # two live iterators at different rows: an outer pass paused after k notes while an inner pass runs to the end
+    for k in sorted({1, len(inotes) // 2 + 1} if len(inotes) >= 2 else ()):
+        nested = NoteData(text)
+        it = iter(nested)
+        head = [next(it) for _ in range(k)]
+        inner = list(nested)
+        outer = head + list(it)
+        if inner != inotes:
+            fail("a pass started while another pass is under way yields different notes", "same notes", "different")
+        elif outer != inotes:
+            fail("a pass is disturbed by a pass started while it is under way", "same notes", "different")
     if got != model_notes:
         fail("decoded notes differ from one-note-per-non-zero-cell reading", model_notes[:12], got[:12])
         return fails
